@@ -1,14 +1,37 @@
-//! c07 probe skeleton
+//! c07 — the OpenAPI document tells the truth about requests and responses.
+//!
+//! A live server serves a compiled-in family of endpoints (ep.rs).  The
+//! harness fetches `api.openapi("t", v).json()` and, from the DOCUMENT alone
+//! (doc.rs), builds requests: every parameter the document marks required plus
+//! a subset of the optional ones, with values generated from the documented
+//! schemas; a body generated from the documented request schema under the
+//! documented content type; then the same with one required parameter left
+//! out.  Each case carries what the document says about the operation, the
+//! request and the server's answer (status, content type, body, whether the
+//! handler was entered) as a Gallina term for Run_C07.judge, which evaluates
+//! the property (and the model of Params.v / DocTruth.v) on it.
+//!
+//!   group request        document-derived requests against the live server
+//!   group document       each operation of the document against the model
+//!   group schema2struct  arbitrary schemas through Query<Dyn> (dynamic-schema device)
+//!
+//! `--mode probe` prints the document and the schemas schemars derives.
+mod cases;
+mod doc;
 mod ep;
+mod gallina;
+mod s2s;
 
 use dsverif::live;
+use dsverif::util::Rng;
+use serde_json::{json, Value};
 use std::net::SocketAddr;
 
 pub struct Server {
     pub rt: tokio::runtime::Runtime,
     pub srv: Option<dropshot::HttpServer<ep::Ctx>>,
     pub addr: SocketAddr,
-    pub doc: serde_json::Value,
+    pub doc: Value,
     pub ops: std::collections::BTreeMap<String, ep::OpInfo>,
 }
 impl Server {
@@ -18,7 +41,11 @@ impl Server {
         let doc = api.openapi("t", semver::Version::new(1, 0, 0)).json().expect("openapi json");
         let srv = {
             let _g = rt.enter();
-            live::start_server(api, ctx, live::ServerOpts { default_request_body_max_bytes: 65536, ..Default::default() })
+            live::start_server(
+                api,
+                ctx,
+                live::ServerOpts { default_request_body_max_bytes: 65536, ..Default::default() },
+            )
         };
         let addr = srv.local_addr();
         Server { rt, srv: Some(srv), addr, doc, ops }
@@ -38,55 +65,99 @@ fn show<T: schemars::JsonSchema>() {
     let root = generator.root_schema_for::<T>();
     println!("SCHEMA {} {}", T::schema_name(), serde_json::to_string(&root).unwrap());
 }
+
 fn probe(server: &Server) {
-    show::<ep::QA>(); show::<ep::QB>(); show::<ep::QF>(); show::<ep::QFF>(); show::<ep::Q3<u8>>(); show::<ep::Q3<ep::Color>>();
-    show::<ep::Q3<char>>(); show::<ep::Q3<i64>>(); show::<ep::Q3<u64>>(); show::<ep::Q3<bool>>(); show::<ep::Q3<String>>(); show::<ep::PM>();
+    show::<ep::QA>();
+    show::<ep::QB>();
+    show::<ep::QF>();
+    show::<ep::QFF>();
+    show::<ep::Q3<u8>>();
+    show::<ep::Q3<ep::Color>>();
+    show::<ep::PM>();
     println!("{}", serde_json::to_string_pretty(&server.doc).unwrap());
-    let reqs: Vec<(&str, &str, Option<(&str, &str)>)> = vec![
-        ("GET", "/qfi?n=5&b=true&k=3", None),
-        ("GET", "/qfi?n=5&b=true&k=3&m=-1", None),
-        ("POST", "/qf?s=a&c=green&top=t", None),
-        ("POST", "/qf?s=a&c=green&top=t&lim=4&t=x&u=y", None),
-        ("GET", "/qff?s=a&c=Red&w=t", None),
-        ("GET", "/pf/aa/bb/c", None),
-        ("GET", "/pfi/7/bb", None),
-        ("GET", "/q/u8?v=300", None),
-        ("GET", "/q/u8?v=3", None),
-        ("GET", "/e/http?mode=coded", None),
-        ("GET", "/e/custom?mode=internal", None),
-        ("GET", "/e/custom_ok", None),
-        ("GET", "/r/raw", None),
-        ("GET", "/r/hdrs", None),
-        ("GET", "/r/free/ok", None),
-        ("GET", "/r/found", None),
-    ];
-    for (m, t, b) in reqs {
-        let r = match b {
-            Some((ct, body)) => live::request(m, t, &[("Content-Type", ct)], Some(body.as_bytes())),
-            None => live::request(m, t, &[], None),
-        };
-        let before = server.ctx().total();
-        match live::roundtrip(server.addr, &r, false) {
-            Ok(resp) => println!(
-                "{} {} -> {} entered+{} ct={:?} hdrs={:?} {}",
-                m,
-                t,
-                resp.status,
-                server.ctx().total() - before,
-                resp.header_str("content-type"),
-                resp.headers.iter().map(|h| h.0.clone()).collect::<Vec<_>>(),
-                String::from_utf8_lossy(&resp.body)
-            ),
-            Err(e) => println!("{} {} -> ERR {:?}", m, t, e),
+}
+
+fn run_case(w: &cases::World, case: &Value, out: &mut dyn std::io::Write) {
+    match case["kind"].as_str().unwrap_or("req") {
+        "req" => cases::run_req(w, case, out),
+        "doc" => cases::run_doc(w, case, out),
+        "s2s" => s2s::run(case, out),
+        other => panic!("unknown case kind {}", other),
+    }
+}
+
+fn gen_all(w: &cases::World, seed: u64, thorough: bool, out: &mut dyn std::io::Write) {
+    let mut r = Rng::new(seed);
+    // one buffer per group; the lines are interleaved at the end so that every
+    // shard of the evaluation gets the same mix of heavy and light cases
+    let mut bufs: Vec<Vec<u8>> = vec![vec![], vec![], vec![]];
+    // every operation of the document against the model
+    for op in &w.ops {
+        run_case(w, &json!({"kind": "doc", "method": op.method, "path": op.path}), &mut bufs[0]);
+    }
+    // document-derived requests
+    let rounds = if thorough { 100 } else { 12 };
+    for round in 0..rounds {
+        for op in &w.ops {
+            let pick = match round % 5 {
+                0 => cases::Pick::RequiredOnly,
+                1 => cases::Pick::All,
+                _ => cases::Pick::Some,
+            };
+            let c = cases::build_req(w, op, &mut r, pick, None);
+            run_case(w, &c, &mut bufs[1]);
+            // each required query parameter left out in turn, every other round
+            if round % 2 == 0 {
+                let required: Vec<String> = op
+                    .params
+                    .iter()
+                    .filter(|p| p.required && p.loc == doc::Loc::Query)
+                    .map(|p| p.name.clone())
+                    .collect();
+                for name in required {
+                    let pick = if round % 4 == 0 { cases::Pick::Some } else { cases::Pick::All };
+                    let c = cases::build_req(w, op, &mut r, pick, Some(&name));
+                    run_case(w, &c, &mut bufs[1]);
+                }
+            }
         }
+    }
+    // schema2struct alone
+    let n = if thorough { 3000 } else { 400 };
+    for _ in 0..n {
+        let c = s2s::gen_case(&mut r);
+        run_case(w, &c, &mut bufs[2]);
+    }
+    let mut keyed: Vec<(u64, usize, &[u8])> = vec![];
+    for (g, b) in bufs.iter().enumerate() {
+        let lines: Vec<&[u8]> = b.split(|c| *c == b'\n').filter(|l| !l.is_empty()).collect();
+        let n = lines.len() as u64;
+        for (i, l) in lines.into_iter().enumerate() {
+            keyed.push(((2 * i as u64 + 1) * 1_000_000 / (2 * n), g, l));
+        }
+    }
+    keyed.sort_by_key(|k| (k.0, k.1));
+    for (_, _, l) in keyed {
+        out.write_all(l).unwrap();
+        out.write_all(b"\n").unwrap();
     }
 }
 
 fn main() {
-    dsverif::cli::main(|o, _replay, _out| {
+    dsverif::cli::main(|o, replay, out| {
         let server = Server::start();
         if o.mode == "probe" {
             probe(&server);
+        } else {
+            let w = cases::World::new(&server);
+            match replay {
+                Some(cs) => {
+                    for c in &cs {
+                        run_case(&w, c, out);
+                    }
+                }
+                None => gen_all(&w, o.seed, o.thorough, out),
+            }
         }
         server.stop();
     });
